@@ -42,6 +42,7 @@ type World struct {
 	// P4Fault, when set, makes the switch fail one write of the next request (one shot)
 	P4Fault  *P4FaultPlan
 	LastRpcs int // Write RPCs the switch received during the last request
+	conc     *concRec
 	Agent         *agent.Agent
 	Peers         map[string]*pfcpx.Peer
 	UpTok         *pfcpx.Toks
